@@ -3,7 +3,7 @@
    The model is Html/Model.v (all of /repo/html/lex.go and ToHash over the generated table); [run c n l] is a
    caller that calls Next n times whatever it returns; [cfg_ok c] says the two template delimiters contain no
    NUL byte (c = no_tmpl: NewLexer; the six predefined pairs satisfy it, cfg_ok_predefined). *)
-From Verif Require Import Common.Base Common.Lx Gen.Tables Html.Model Html.ListLemmas Html.Safety Html.Step Html.Spec Html.Proofs.
+From Verif Require Import Common.Base Common.Lx Gen.Tables Html.Model Html.ListLemmas Html.Safety Html.Step Html.Spec Html.RawText Html.Proofs.
 
 (* C01 — no panic, no endless loop: n calls of Next succeed on every byte string, with or without template
    delimiters, whatever the caller does after an error. *)
@@ -84,3 +84,41 @@ Theorem html_template_elsewhere_refuted :
   region_unreported go_tmpl MathT [60;109;97;116;104;62;123;123;120;125;125;60;47;109;97;116;104;62] 6 11.
 Proof. exact html_template_elsewhere_refuted_proof. Qed.
 Print Assumptions html_template_elsewhere_refuted.
+
+(* C09 — raw text: after the start tag of a raw-text element (rawtag l <> 0, tag closed) the content up to e is
+   returned as ONE Text token and the raw-text mode is left; e is the end of input or the position of an end tag of
+   that element (end_tag_at: "</" + a maximal run of letters that hashes to the element, case-insensitively), as
+   found by the modelled rules (script double escape, template regions skipped); without template delimiters and
+   outside script it is the FIRST such end tag.  (If the content is empty, e = cursor, lexing continues normally.) *)
+Theorem html_rawtext_never_markup :
+  forall c d l ty tk l', cfg_ok c -> html_inv d l -> intag l = false -> rawtag l <> 0 ->
+    next c l = Ok (ty, tk, l') ->
+    exists e, lpos (lz l) <= e <= len d /\
+      (lpos (lz l) < e ->
+         ty = TextT /\ tk = Some (mkSl (lpos (lz l)) (e - lpos (lz l))) /\ ltext l' = tk /\
+         rawtag l' = 0 /\ intag l' = false /\ lpos (lz l') = e) /\
+      (e = len d \/ (rawtag l <> html_hash_Plaintext /\ end_tag_at (rawtag l) (d ++ [0]) e)) /\
+      (has_delims c = false -> rawtag l <> html_hash_Script -> rawtag l <> html_hash_Plaintext ->
+         forall p, lpos (lz l) <= p < e -> ~ end_tag_at (rawtag l) (d ++ [0]) p).
+Proof. exact html_rawtext_proof. Qed.
+Print Assumptions html_rawtext_never_markup.
+
+(* C09 refuted (found while modelling) — "ending only at the matching end tag": any non-letter after "</title"
+   ends the raw text; the end tag found there calls itself "title-x". *)
+Theorem html_rawtext_endtag_prefix_refuted :
+  let d := [60;116;105;116;108;101;62;97;60;47;116;105;116;108;101;45;120;62;98;60;47;116;105;116;108;101;62] in
+  exists tr, run no_tmpl 4 (new_lexer d) = Ok tr /\
+    map (fun r => (fst (fst r), snd (fst r))) tr =
+      [(StartTagT, Some (mkSl 0 6)); (StartTagCloseT, Some (mkSl 6 1)); (TextT, Some (mkSl 7 1)); (EndTagT, Some (mkSl 8 10))] /\
+    (exists r, nth_error tr 3 = Some r /\
+       match ltext (snd r) with Some t => view_bytes (lbuf (lz (snd r))) t = [116;105;116;108;101;45;120] | None => False end).
+Proof. exact html_rawtext_endtag_prefix_refuted_proof. Qed.
+Print Assumptions html_rawtext_endtag_prefix_refuted.
+
+(* C09 refuted (found while modelling) — "svg subtrees come back as one SVG token": a double quote in character
+   data makes the token swallow "</svg>" and everything after it. *)
+Theorem html_svg_quote_refuted :
+  let d := [60;115;118;103;62;60;116;101;120;116;62;53;34;32;112;105;112;101;60;47;116;101;120;116;62;60;47;115;118;103;62;60;112;62] in
+  exists l', next no_tmpl (new_lexer d) = Ok (SvgT, Some (mkSl 0 (len d)), l') /\ len d = 34.
+Proof. exact html_svg_quote_refuted_proof. Qed.
+Print Assumptions html_svg_quote_refuted.
